@@ -211,7 +211,44 @@ pub fn run_history_fmt(c: &mut Case, ops: &[TOp], keys: &[String], roundtrip: bo
     }
 }
 
-pub const REQUIRED: &[&str] = &["delete_then_readd", "delete", "exhaustive_histories", "random_histories", "history_from_parsed_archive", "format_utf16", "format_shift_jis", "more_than_64_keys"];
+pub const REQUIRED: &[&str] = &["delete_then_readd", "delete", "exhaustive_histories", "random_histories", "history_from_parsed_archive", "format_utf16", "format_shift_jis", "more_than_64_keys", "more_than_65536_sets_on_one_archive"];
+
+/// Messages far longer than the usual few characters: hundreds of characters over the escaping
+/// alphabet (escape sequences at every byte offset, in particular across multiples of 256), or
+/// more than 64 newlines / escape sequences in one message.
+fn long_message(rng: &mut Rng, alphabet: &[char]) -> String {
+    match rng.below(4) {
+        0 => {
+            // 65..300 newlines, raw or escaped, with short fillers
+            let n = rng.range(65, 300);
+            let esc = rng.bool();
+            let mut s = String::new();
+            for i in 0..n {
+                if i % 3 == 0 {
+                    s.push('a');
+                }
+                if esc {
+                    s.push_str("\\n");
+                } else {
+                    s.push('\n');
+                }
+            }
+            s
+        }
+        1 => {
+            // an escape sequence placed exactly across a multiple of 256 bytes
+            let at = rng.range(1, 4) * 256 - 1 - rng.below(2);
+            let mut s = "a".repeat(at);
+            s.push_str("\\n");
+            s.push_str(&"b".repeat(rng.range(0, 300)));
+            s
+        }
+        _ => {
+            let n = rng.range(200, 900);
+            (0..n).map(|_| *rng.pick(alphabet)).collect()
+        }
+    }
+}
 
 pub fn run(cx: &mut Ctx) {
     cx.require(REQUIRED);
@@ -309,6 +346,18 @@ pub fn run(cx: &mut Ctx) {
             });
         }
     }
+    // one very long history on one key: more than 2^16 sets (counters behind the dirty flag)
+    if !cfg!(miri) {
+        for unicode in [false, true] {
+            cx.case("more_than_65536_sets", |c| {
+                c.sit("more_than_65536_sets_on_one_archive");
+                let keys = vec!["k".to_string(), "j".to_string()];
+                let h: Vec<TOp> = (0..65_600usize).map(|i| if i % 1000 == 999 { TOp::Delete("j".into()) } else { TOp::Set(keys[i % 2].clone(), format!("v{}", i % 7)) }).collect();
+                c.eval(h.len() as u64);
+                run_history_fmt(c, &h, &keys, true, &[], unicode, false);
+            });
+        }
+    }
     // random
     let n = cx.a.n(60_000, 1_500_000);
     for _ in 0..n {
@@ -330,8 +379,12 @@ pub fn run(cx: &mut Ctx) {
                 let k = rng.pick(&keys).clone();
                 h.push(match rng.below(10) {
                     0 | 1 | 2 | 3 => {
-                        let ml = rng.range(0, 8);
-                        let v: String = (0..ml).map(|_| *rng.pick(&alphabet)).collect();
+                        let v: String = if !cfg!(miri) && rng.chance(1, 40) {
+                            long_message(&mut rng, &alphabet)
+                        } else {
+                            let ml = rng.range(0, 8);
+                            (0..ml).map(|_| *rng.pick(&alphabet)).collect()
+                        };
                         TOp::Set(k, v)
                     }
                     4 | 5 => TOp::Delete(k),
